@@ -1,0 +1,19 @@
+//go:build verif
+// +build verif
+
+package main
+
+// Machine-checked contracts for gvc (see /verif/DESIGN.md). Comment-only file:
+// no executable code, excluded from every normal build.
+
+// commonPrefix (C17, ancestry of the output tree): the longest common prefix of the
+// two path-component lists, as a prefix of l.
+//@ contract commonPrefix
+//@   props C17
+//@   nopanic
+//@   modifies nothing
+//@   loop 1: invariant 0 <= i && i <= len(l) && i <= len(r) && forall(k, 0, i, l[k] == r[k])
+//@   loop 1: decreases len(l) - i
+//@   ensures(len) len(result) <= len(l) && len(result) <= len(r)
+//@   ensures(prefix) forall(k, 0, len(result), result[k] == l[k] && l[k] == r[k])
+//@   ensures(maximal) len(result) < len(l) && len(result) < len(r) ==> l[len(result)] != r[len(result)]
